@@ -57,7 +57,7 @@ class Hist:
 
 # Known findings not yet repaired in the library: generated histories stay away from their triggers (each is probed
 # deliberately from corpus/); remove a name here once its fix is in the tree.
-UNFIXED = {"hidden_root"}
+UNFIXED = set()
 
 
 def sticks_out(h, w, reg):
